@@ -1,9 +1,12 @@
 #!/bin/sh
 # runs every confirmed seeded change against the check of the property it breaks; writes seeded/MATRIX.json
+# with seed ids as arguments: only those are (re)run, the other rows are kept
 cd /verif
-python3 - <<'PY'
+ONLY="$*" python3 - <<'PY'
 import json, os, subprocess, glob
 rows=[]
+only=os.environ.get('ONLY','').split()
+old={r['seed']: r for r in json.load(open('/verif/seeded/MATRIX.json'))} if only else {}
 known=json.load(open('/verif/known_findings.json'))['findings']
 def isk(p, n):
     for k in known:
@@ -13,6 +16,8 @@ def isk(p, n):
     return False
 for d in sorted(glob.glob('/verif/seeded/C*-m*')):
     sid=os.path.basename(d)
+    if only and sid not in only and sid in old:
+        rows.append(old[sid]); continue
     meta=json.load(open(d+'/meta.json'))
     if meta.get('status')=='superseded' or meta.get('superseded'):
         rows.append({'seed':sid,'property':meta['breaks_property'],'status':'superseded'}); continue
